@@ -1177,7 +1177,7 @@ int main(int argc, char** argv) {
         std::vector<int> nhs;
         const int NHX = T ? 128 : 64;     // every nh up to NHX with every unit-impulse coefficient vector
         const int SWEEP = T ? 32 : 16;    // every input length 0..3*block+2 and every impulse position up to this nh
-        for (int nh = 2; nh <= NHX; ++nh) nhs.push_back(nh);
+        for (int nh = 1; nh <= NHX; ++nh) nhs.push_back(nh);   // nh = 1: a one-tap filter is a gain
         if (T) {
             for (int nh : {129, 255, 256, 257, 512, 1024, 2048}) nhs.push_back(nh);
         } else {
@@ -1241,8 +1241,8 @@ int main(int argc, char** argv) {
 
     // ---- FirFilter fed in several calls with changing frame lengths
     {
-        std::vector<int> nhs = {2, 3, 4, 5, 8, 16, 17, 31, 32, 33, 64, 100, 257};
-        if (T) nhs = {2, 3, 4, 5, 6, 7, 8, 9, 15, 16, 17, 24, 31, 32, 33, 48, 63, 64, 65, 100, 128, 257};
+        std::vector<int> nhs = {1, 2, 3, 4, 5, 8, 16, 17, 31, 32, 33, 64, 100, 257};
+        if (T) nhs = {1, 2, 3, 4, 5, 6, 7, 8, 9, 15, 16, 17, 24, 31, 32, 33, 48, 63, 64, 65, 100, 128, 257};
         for (int nh : nhs)
             for (int cplx = 0; cplx < 2; ++cplx) {
                 if (!ctx.take("firfilter.seq", P().kv("cplx", cplx).kv("nh", nh).kv("calls", T ? 4 : 3))) continue;
@@ -1253,7 +1253,7 @@ int main(int argc, char** argv) {
     // ---- FftFilter fed in several calls (pending samples, aligned and unaligned frames)
     {
         std::vector<int> nhs;
-        for (int nh = 2; nh <= (T ? 128 : 64); ++nh) nhs.push_back(nh);
+        for (int nh = 1; nh <= (T ? 128 : 64); ++nh) nhs.push_back(nh);
         if (T) {
             for (int nh : {129, 255, 256, 257, 512, 1024, 2048}) nhs.push_back(nh);
         } else {
@@ -1321,9 +1321,7 @@ int main(int argc, char** argv) {
                                   {"sparse", "dense"}, {"tap0", "tapL"},   {"tapL", "tap0"},   {"dense", "dense*2^-60"}, {"dense*2^200", "dense"},
                                   {"dense", "lead0"},  {"dense", "trail0"}};
         for (int cplx = 0; cplx < 2; ++cplx)
-            // nh = 1 is outside the statement's range (2..1024): on the unchanged tree FirFilter with a single tap throws
-            // "Left slice index out of range" from every process() call (x.slice(nx, nx) of the delay update), retuned or not
-            for (int nh : {2, 3, 5, 8, 16, 33})
+            for (int nh : {1, 2, 3, 5, 8, 16, 33})
                 for (auto& pr : pairs)
                     for (int mode = 0; mode < 2; ++mode) {
                         if (!ctx.take("firfilter.retune", P().kv("cplx", cplx).kv("nh", nh).kv("h0", pr[0]).kv("h1", pr[1]).kv("mode", mode ? "elem" : "assign"))) continue;
@@ -1334,8 +1332,8 @@ int main(int argc, char** argv) {
     // ---- scale invariance of every linear entry point
     {
         const char* letters[] = {"dense", "sparse", "nearsym", "tap0", "tapL"};
-        std::vector<int> nhs = {2, 3, 8, 17, 64, 129};
-        if (T) nhs = {2, 3, 4, 5, 7, 8, 16, 17, 31, 33, 64, 100, 129, 257};
+        std::vector<int> nhs = {1, 2, 3, 8, 17, 64, 129};
+        if (T) nhs = {1, 2, 3, 4, 5, 7, 8, 16, 17, 31, 33, 64, 100, 129, 257};
         for (int en = E_FIR; en <= E_FFT; ++en)
             for (int cplx = 0; cplx < 2; ++cplx)
                 for (int nh : nhs)
